@@ -54,6 +54,8 @@ def programs(draw, tier):
         st.tuples(st.just("asend-dead")),
         st.tuples(st.just("asend"), st.integers(0, 2)),
         st.tuples(st.just("reenter"), st.integers(0, 2)),
+        # a scope over ANOTHER iterator (distinct, but equal to the first under ==) opened and left inside the block
+        st.tuples(st.just("other-scope")),
     )
     ops = [list(o) for o in draw(st.lists(op, max_size=20))]
     raise_at = draw(st.one_of(st.none(), st.none(), st.integers(0, 20)))
@@ -62,6 +64,7 @@ def programs(draw, tier):
             # what leaves the block at raise_at: an ordinary error, or what a generator / task shutdown delivers
             # the underlying iterator's own aclose() fails (once) and leaves it open
             "cfault": draw(st.sampled_from([False, False, False, True])),
+            "eqsrc": draw(st.sampled_from([False, True])),
             "exit_exc": draw(st.sampled_from(["Fault", "Fault", "GeneratorExit", "KeyboardInterrupt",
                                               "StopAsyncIteration", "CancelledError"])),
             "mode": draw(st.sampled_from(["hooks", "bare"]))}
@@ -76,6 +79,10 @@ def run_program(case, cancel_at=None):
     items = mats(case["items"])
     kind = case["kind"]
     spec = {"fl": kind if kind not in ("send", "loan") else "aclass", "susp": case["susp"]}
+    if case.get("eqsrc"):
+        spec["eqsrc"] = True
+    other = make_source(ctx, "o", mats([["I", 9, 900], ["I", 9, 901], ["I", 9, 902], ["I", 9, 903]]),
+                        {"fl": "aclass", "eqsrc": bool(case.get("eqsrc"))}, "a")
     cfault = bool(case.get("cfault")) and kind in ("aclass", "aplain", "send")
     if cfault:
         spec.update(cfault="LookupError", cfault_open=True)
@@ -198,6 +205,15 @@ def run_program(case, cancel_at=None):
                 elif name == "exit":
                     if depth > 1:
                         break
+                elif name == "other-scope":
+                    if not (other.closed or other.exhausted):
+                        async with a.scoped_iter(other.obj) as h2:
+                            try:
+                                await h2.__anext__()
+                            except StopAsyncIteration:
+                                pass
+                        if not other.released:
+                            fail("second-scoped-iterator-not-closed-at-its-exit", f"op {i}")
                 elif name == "next-dead":
                     if dead:
                         await take(dead[-1], live=False)
